@@ -26,6 +26,7 @@ import (
 	"net/http"
 	"net/http/httptest"
 	"net/url"
+	"os"
 	"strconv"
 	"strings"
 	"sync"
@@ -51,6 +52,18 @@ func vc01Handler() Handler {
 			panic(fmt.Sprintf("vc01: incomplete request context: %+v %+v", si, ri))
 		}
 
+		// The wiring of the writer and of the server information: in this unit
+		// clients are 192.0.2.x, servers 127.0.0.1, and every server's name ends
+		// in its protocol.
+		if l, r := rw.LocalAddr().String(), rw.RemoteAddr().String(); !strings.HasPrefix(l, "127.0.0.1:") || !strings.HasPrefix(r, "192.0.2.") {
+			panic(fmt.Sprintf("vc01: writer addresses local=%s remote=%s", l, r))
+		}
+
+		if !strings.HasSuffix(si.Name, "-"+si.Proto.String()) {
+			panic(fmt.Sprintf("vc01: server %q reports protocol %s", si.Name, si.Proto))
+		}
+
+		vc01Seen.Store(vc01SeenKey(req), req.Copy())
 		resp, mode := ref.Ref(req)
 		switch mode {
 		case ref.ModeError:
@@ -61,6 +74,19 @@ func vc01Handler() Handler {
 
 		return rw.WriteMsg(ctx, req, resp)
 	})
+}
+
+// vc01Seen keeps the last query the handler was given per question.
+var vc01Seen sync.Map
+
+func vc01SeenKey(m *dns.Msg) string {
+	if len(m.Question) == 0 {
+		return ""
+	}
+
+	q := m.Question[0]
+
+	return fmt.Sprintf("%s|%d|%d", q.Name, q.Qtype, q.Qclass)
 }
 
 var (
@@ -212,7 +238,7 @@ func TestVerifC01Accept(t *testing.T) {
 
 	bases := map[Protocol]*ServerBase{}
 	for _, p := range vc01Protos {
-		bases[p] = newServerBase(p, vc01Base("verif-c01"))
+		bases[p] = newServerBase(p, vc01Base("verif-c01-"+p.String()))
 	}
 
 	rapid.Check(t, func(t *rapid.T) {
@@ -497,44 +523,15 @@ func vc01PlainName(n string) bool {
 	return n != ""
 }
 
-func vc01JSONTarget(q dns.Question, cd, do, mnemonic, wireCT bool, decoy []byte) string {
-	v := url.Values{}
-	if decoy != nil {
-		v.Set("dns", base64.RawURLEncoding.EncodeToString(decoy))
-	}
-
-	v.Set("name", q.Name)
-	ts := strconv.Itoa(int(q.Qtype))
-	if s, ok := dns.TypeToString[q.Qtype]; ok && mnemonic && s == strings.ToUpper(s) {
-		ts = strings.ToLower(s)
-	}
-
-	v.Set("type", ts)
-	v.Set("qc", strconv.Itoa(int(q.Qclass)))
-	if cd {
-		v.Set("cd", "1")
-	}
-
-	if do {
-		v.Set("do", "true")
-	}
-
-	if wireCT {
-		v.Set("ct", MimeTypeDoH)
-	}
-
-	return PathJSON + "?" + v.Encode()
-}
-
 // vc01Params are the per-case choices that are not part of the input.
 type vc01Params struct {
-	tcpChunk     int  // read granularity of the in-memory TCP connections
-	decoy        bool // DoH requests carry parameters of the other encodings
-	streamFault  string
-	chunk        int
-	prefixDelta  int // 0: correct DoQ length prefix
-	jsonMnemonic bool
-	jsonMethod   string
+	tcpChunk    int  // read granularity of the in-memory TCP connections
+	decoy       bool // DoH requests carry parameters of the other encodings
+	streamFault string
+	chunk       int
+	prefixDelta int // 0: correct DoQ length prefix
+	jsonMethod  string
+	pick        ref.Chooser // JSON API parameter choices
 }
 
 func vc01DrawParams(t *rapid.T) (p vc01Params) {
@@ -546,7 +543,7 @@ func vc01DrawParams(t *rapid.T) (p vc01Params) {
 	p.tcpChunk = rapid.SampledFrom([]int{0, 0, 1, 2, 3, 13}).Draw(t, "tcpChunk")
 	p.decoy = rapid.Bool().Draw(t, "dohDecoy")
 	p.streamFault = rapid.SampledFrom([]string{"", "", "", "tcp-short-frame", "tcp-empty-frame", "doq-two-in-one", "doh-two-dns-params", "doh-bad-method"}).Draw(t, "streamFault")
-	p.jsonMnemonic = rapid.Bool().Draw(t, "jsonMnemonic")
+	p.pick = ref.RapidChooser(t)
 	p.jsonMethod = rapid.SampledFrom([]string{http.MethodGet, http.MethodGet, http.MethodPost}).Draw(t, "jsonMethod")
 
 	return p
@@ -720,55 +717,105 @@ func vc01FramingCase(t interface{ Fatalf(string, ...any) }, st *vstat.Stats, f *
 		classes = append(classes, "cross-transport-compared")
 	}
 
-	// JSON API for what it can express.
+	// JSON API: the question of an accepted query with a plain name, every
+	// documented parameter drawn independently of the wire query.
 	if c.Verdict == ref.VAccept && vc01PlainName(c.Req.Question[0].Name) {
-		q := c.Req.Question[0]
-		cd, do := c.Req.CheckingDisabled, c.ReqOPT != nil && c.ReqOPT.Do()
-		jreq := ref.JSONRequest(q.Name, q.Qtype, q.Qclass, cd, do)
-		jb, _ := jreq.Pack()
-		jc := ref.Classify(jb)
-		mn, method := p.jsonMnemonic, p.jsonMethod
-		classes = append(classes, "json")
-
-		var jsonDecoy, jsonBody []byte
+		j := ref.DrawJSONQuery(p.pick, c.Req.Question[0])
+		method := p.jsonMethod
+		classes = append(append(classes, "json"), j.Classes...)
+		var jsonBody []byte
 		if p.decoy {
-			jsonDecoy = decoyWire
+			j.Values.Set("dns", b64(decoyWire))
 			if method == http.MethodPost {
 				jsonBody = decoyWire
 			}
 		}
 
-		r, rec = f.http(method, vc01JSONTarget(q, cd, do, mn, false, jsonDecoy), jsonBody)
-		switch {
-		case jc.Mode == ref.ModeSilent:
-			if rec.Code < 400 {
-				fail("doh-json", fmt.Errorf("silent pipeline: HTTP status %d", rec.Code))
-			}
-		case rec.Code != http.StatusOK:
-			fail("doh-json", fmt.Errorf("HTTP status %d: %s", rec.Code, rec.Body.String()))
-		default:
-			if ct := rec.Header().Get("Content-Type"); ct != MimeTypeJSON {
-				fail("doh-json", fmt.Errorf("content type %q", ct))
+		target := func(wireCT bool) string {
+			v := url.Values{}
+			for k, vs := range j.Values {
+				v[k] = vs
 			}
 
-			dropped, jerr := ref.CheckJSON(rec.Body.Bytes(), jreq, jc.Want, jc.Loose)
-			if jerr != nil {
-				fail("doh-json", jerr)
+			if wireCT {
+				v.Set("ct", MimeTypeDoH)
+			} else if p.pick("json-ct", 3) == 0 {
+				v.Set("ct", []string{MimeTypeJSON, "text/plain"}[p.pick("json-ct-other", 2)])
 			}
 
-			if dropped {
-				classes = append(classes, "json-authority-not-representable")
-			}
+			return PathJSON + "?" + v.Encode()
 		}
 
-		// The same with ct=application/dns-message: a wire-format answer to the
-		// request the server built itself (its ID is the server's), judged against
-		// the equivalent request's own case.
-		r, _ = f.http(method, vc01JSONTarget(q, cd, do, mn, true, jsonDecoy), jsonBody)
-		_, cl, jerr := ref.Judge(ref.DoH.Named("doh-json-ct-wire"), jc, r, ref.CheckOpts{NoID: true})
-		classes = append(classes, cl...)
-		if jerr != nil {
-			fail("doh-json-ct-wire", jerr)
+		if j.Invalid {
+			for _, wireCT := range []bool{false, true} {
+				if _, rec = f.http(method, target(wireCT), jsonBody); rec.Code < 400 || rec.Code >= 500 {
+					fail("doh-json", fmt.Errorf("invalid parameter in %q: HTTP status %d, want 4xx", target(wireCT), rec.Code))
+				}
+			}
+		} else {
+			jb, _ := j.Req.Pack()
+			jc := ref.Classify(jb)
+			key := vc01SeenKey(j.Req)
+			received := func(tr string) {
+				v, _ := vc01Seen.Load(key)
+				got, _ := v.(*dns.Msg)
+				if rerr := ref.CheckJSONReceived(j, got); rerr != nil {
+					fail(tr, fmt.Errorf("request %q: %w", j.Values.Encode(), rerr))
+				}
+			}
+
+			vc01Seen.Delete(key)
+			r, rec = f.http(method, target(false), jsonBody)
+			received("doh-json")
+			switch {
+			case jc.Mode == ref.ModeSilent:
+				if rec.Code < 400 {
+					fail("doh-json", fmt.Errorf("silent pipeline: HTTP status %d", rec.Code))
+				}
+			case rec.Code != http.StatusOK:
+				fail("doh-json", fmt.Errorf("request %q: HTTP status %d: %s", j.Values.Encode(), rec.Code, rec.Body.String()))
+			default:
+				if ct := rec.Header().Get("Content-Type"); ct != MimeTypeJSON {
+					fail("doh-json", fmt.Errorf("content type %q", ct))
+				}
+
+				dropped, jerr := ref.CheckJSON(rec.Body.Bytes(), j.Req, jc.Want, jc.Loose)
+				if jerr != nil {
+					fail("doh-json", fmt.Errorf("request %q: %w", j.Values.Encode(), jerr))
+				}
+
+				if dropped {
+					classes = append(classes, "json-authority-not-representable")
+				}
+			}
+
+			// The same with ct=application/dns-message: a wire-format answer to the
+			// request the server built itself (its ID is the server's), judged
+			// against the equivalent request's own case ...
+			vc01Seen.Delete(key)
+			r, _ = f.http(method, target(true), jsonBody)
+			received("doh-json-ct-wire")
+			jfull, cl, jerr := ref.Judge(ref.DoH.Named("doh-json-ct-wire"), jc, r, ref.CheckOpts{NoID: true})
+			classes = append(classes, cl...)
+			if jerr != nil {
+				fail("doh-json-ct-wire", fmt.Errorf("request %q: %w", j.Values.Encode(), jerr))
+			}
+
+			// ... and compared with the answer to the equivalent wire-format query
+			// (same question, CD, DO, opt-in) sent as a DoH POST.
+			r, _ = f.http(http.MethodPost, PathDoH, jb)
+			pfull, _, perr := ref.Judge(ref.DoH.Named("doh-post"), jc, r, ref.CheckOpts{})
+			if perr != nil {
+				fail("doh-post(json-equivalent)", perr)
+			}
+
+			if jfull != pfull {
+				fail("doh-json-ct-wire", fmt.Errorf("request %q: JSON API and the equivalent wire-format query disagree:\n json: %s\n wire: %s", j.Values.Encode(), jfull, pfull))
+			}
+
+			if jfull != "" {
+				classes = append(classes, "json-vs-wire-compared")
+			}
 		}
 	}
 
@@ -788,7 +835,8 @@ func TestVerifC01Framing(t *testing.T) {
 		"verdict-accept", "undecodable-past-header", "verdict-response-bit", "verdict-notimp", "verdict-formerr", "kind-handler-error",
 		"kind-silent", "kind-large", "truncated-on-udp", "truncated-on-dnscrypt-udp", "cross-transport-compared", "json", "req-padding", "req-keepalive",
 		"doq:no-message", "doq:servfail-or-none", "doq-bad-prefix", "udp-oversize-query", "mixed-case-name", "max-length-name",
-		"near-miss", "near-miss-case", "tcp-burst", "doh-decoy-params", "tcp-short-frame", "tcp-empty-frame", "doq-two-in-one", "doh-two-dns-params",
+		"near-miss", "near-miss-case", "near-miss-grow", "tcp-burst", "json-do-only", "json-sde-only", "json-cd-only", "json-do+sde",
+		"json-invalid-param", "json-type-default", "json-type-mnemonic", "json-vs-wire-compared", "doh-decoy-params", "tcp-short-frame", "tcp-empty-frame", "doq-two-in-one", "doh-two-dns-params",
 		"root-name", "one-label-name", "query-size-511", "query-size-512", "query-size-513", "req-padding+keepalive", "doq:fallback-servfail")
 	st.Finish(t)
 
@@ -899,8 +947,15 @@ func FuzzVerifC01Accept(f *testing.F) {
 	f.Add([]byte{0, 4, 1, 0, 0, 1, 0, 0, 0, 0, 0, 0, 0xc0, 0xff, 0, 1, 0, 1})                                  // pointer beyond the end
 	f.Add([]byte{0, 5, 1, 0, 0, 1, 0, 0, 0, 0, 0, 1, 1, 'a', 0, 0, 1, 0, 1, 0, 0, 41, 0xff, 0xff, 0, 0, 0, 0}) // OPT with missing rdlength
 
+	// The fuzzing coordinator keeps its shared-memory files in the temporary
+	// directory; /tmp is swept by other jobs on this machine, so use the run's
+	// own work directory.
+	if w := os.Getenv("VERIF_WORK"); w != "" {
+		_ = os.Setenv("TMPDIR", w)
+	}
+
 	fix := vc01NewFixture()
-	base := newServerBase(ProtoDNS, vc01Base("verif-c01-fuzz"))
+	base := newServerBase(ProtoDNS, vc01Base("verif-c01-fuzz-dns"))
 	f.Fuzz(func(t *testing.T, wire []byte) {
 		if len(wire) > 8192 {
 			t.Skip()
@@ -912,7 +967,7 @@ func FuzzVerifC01Accept(f *testing.F) {
 		}
 
 		h := ref.Hash(string(wire))
-		p := vc01Params{chunk: []int{1, 7, 400, 70000}[h%4], jsonMnemonic: h&16 != 0, jsonMethod: http.MethodGet}
+		p := vc01Params{chunk: []int{1, 7, 400, 70000}[h%4], jsonMethod: http.MethodGet, pick: ref.HashChooser(string(wire))}
 		if h%11 == 0 {
 			p.prefixDelta = 1
 		}
